@@ -39,12 +39,167 @@ VMF = "program_structure/src/intermediate_representation/variable_meta.rs"
 CLASSES = ("locals", "signals", "components")
 
 
+def eval_taint(ctx, R, fn):
+    """C09.1 by evaluation: run_taint_analysis is run on small graphs - one statement of every kind, then all of them
+    spread over several blocks - whose statements, conditions and dimensions answer the read / write queries with
+    markers; the taint steps recorded must be exactly those of the rule table.  Returns True when decided."""
+    import passeval
+    from finfun import NONE, S, Unsupported
+    from passeval import MMap, MSet, O, Panic, V
+
+    try:
+        w = passeval.PassWorld([IR, TA], TA)
+    except Exception as e:  # noqa: BLE001
+        ctx.note("run_taint_analysis: evaluator unavailable (%s)" % e)
+        return False
+    w.lenient_opaque = True
+    names = {}
+
+    def name(x):
+        return names.setdefault(x, O("name:" + x))
+
+    def use(x):
+        nm = name(x)
+        return ("O", "use:" + x, (("name", nm), ("clone", ("PY", lambda: use(x)))))
+
+    uses_cache = {}
+
+    def U(x):
+        return uses_cache.setdefault(x, use(x))
+
+    def L(xs):
+        return ("L", tuple(xs))
+
+    def expr(tag, reads, value=NONE):
+        return ("O", "expr:" + tag, (("variables_read", L(U(r) for r in reads)), ("value", value), ("variables_written", L([]))))
+
+    def stmt(variant, reads=(), writes=(), **fields):
+        f = dict(fields)
+        f.setdefault("meta", O("meta:" + variant))
+        f["__reads"], f["__writes"] = L(U(r) for r in reads), L(U(x) for x in writes)
+        return V("Statement", variant, **f)
+
+    w.method_stubs = {("Statement", "variables_read"): lambda recv, args: recv[3]["__reads"], ("Statement", "variables_written"): lambda recv, args: recv[3]["__writes"],
+                      ("Expression", "variables_read"): lambda recv, args: recv[3].get("__reads", L([])), ("Expression", "variables_written"): lambda recv, args: L([]),
+                      ("Expression", "value"): lambda recv, args: recv[3].get("__value", NONE), ("Expression", "meta"): lambda recv, args: recv[3]["meta"]}
+
+    def block(tag, stmts):
+        writes = [u for st in stmts for u in st[3]["__writes"][1]]
+        return ("O", "block:" + tag, (("iter", L(stmts)), ("variables_written", L(writes)), ("len", len(stmts))))
+
+    phi = V("Expression", "Phi", meta=O("phi-meta"), args=L([]))
+    num = V("Expression", "Number", meta=O("num-meta"), value=1)
+
+    def world(tag, blocks, regions, want):
+        return (tag, blocks, regions, want)
+
+    def simple(tag, st, want):
+        return world(tag, [block("b0", [st])], {}, want)
+
+    sub = stmt("Substitution", ("r1", "r2"), ("w1", "w2"), var=O("var"), op=O("op"), rhe=num)
+    subphi = stmt("Substitution", ("p1", "p2"), ("q",), var=O("var"), op=O("op"), rhe=phi)
+    decl = stmt("Declaration", (), (), names=L([name("n1"), name("n2")]), var_type=O("var_type"), dimensions=L([expr("d1", ["a"]), expr("d2", ["b", "c"])]))
+    others = [stmt(vn, ("o1", "o2"), ()) for vn in ("Assert", "LogCall", "Return", "ConstraintEquality")]
+    for o_ in others:
+        for fld in ("cond", "value", "lhe", "rhe", "args"):
+            o_[3].setdefault(fld, expr(o_[2] + "." + fld, ["o1"]))
+    # right-hand sides of other shapes: a known constant, an element update whose index and stored value read different variables
+    known_num = V("Expression", "Number", meta=O("num-meta"), value=1, __value=S("Some", O("value")))
+    upd = V("Expression", "Update", meta=O("upd-meta"), var=name("arr"), access=L([S("ArrayAccess", expr("index", ["i"])), S("ComponentAccess", "in"), S("ArrayAccess", V("Expression", "Variable", meta=O("vm"), name=name("j"), __reads=L([U("j")])))]),
+            rhe=expr("stored", ["v"]), __reads=L([U("arr"), U("i"), U("j"), U("v")]))
+    sub_known = stmt("Substitution", ("kr",), ("kw",), var=O("var"), op=O("op"), rhe=known_num)
+    sub_upd = stmt("Substitution", ("arr", "i", "j", "v"), ("arr2",), var=O("var"), op=O("op"), rhe=upd)
+    worlds = [
+        simple("assignment of a known constant", sub_known, {("kr", "kw")}),
+        simple("element update", sub_upd, {(r, "arr2") for r in ("arr", "i", "j", "v")}),
+        simple("assignment", sub, {(r, x) for r in ("r1", "r2") for x in ("w1", "w2")}),
+        simple("phi assignment", subphi, {("p1", "q"), ("p2", "q")}),
+        simple("declaration", decl, {(a, n) for a in ("a", "b", "c") for n in ("n1", "n2")}),
+    ] + [simple(o_[2], o_, set()) for o_ in others]
+    for known in (False, True):
+        cond = expr("cond", ["c1", "c2"], S("Some", O("value")) if known else NONE)
+        ite = stmt("IfThenElse", ("c1", "c2"), (), cond=cond, true_index=1, false_index=S("Some", 3))
+        b0 = block("if-header", [ite])
+        t1 = block("t1", [stmt("Substitution", ("k",), ("x",), var=O("var"), op=O("op"), rhe=num)])
+        t2 = block("t2", [stmt("Substitution", (), ("y1", "y2"), var=O("var"), op=O("op"), rhe=num)])
+        f1 = block("f1", [stmt("Substitution", (), ("z",), var=O("var"), op=O("op"), rhe=num)])
+        want = set() if known else {(c_, x) for c_ in ("c1", "c2") for x in ("x", "y1", "y2", "z")}
+        # only the header is walked here: the region blocks' own statements are not part of this world
+        worlds.append(world("if-statement, condition %s" % ("known" if known else "not known"), [b0], {id(b0): ([t1, t2], [f1])}, want))
+    # everything at once, spread over blocks
+    sub2 = stmt("Substitution", ("s",), ("t",), var=O("var"), op=O("op"), rhe=num)
+    allb = [block("A", [sub, decl]), block("B", [others[0], sub2]), block("C", [subphi])]
+    worlds.append(world("three blocks", allb, {}, worlds[2][3] | worlds[3][3] | worlds[4][3] | {("s", "t")}))
+    bad = {}
+    n = 0
+    for tag, blocks, regions, want in worlds:
+        asked = []
+
+        def region(which, blocks=blocks, regions=regions, asked=asked):
+            def f(bb):
+                for b_ in blocks:
+                    if b_ is bb:
+                        asked.append((which, True))
+                        r_ = regions.get(id(b_))
+                        return L(r_[which] if r_ else [])
+                asked.append((which, False))
+                return L([])
+            return ("PY", f)
+
+        params = ("O", "parameters", (("iter", L([])), ("file_location", O("loc")), ("file_id", NONE), ("len", 0)))
+        cfg = ("O", "cfg", (("parameters", params), ("iter", L(blocks)), ("get_true_branch", region(0)), ("get_false_branch", region(1)), ("name", "f")))
+        try:
+            res = w.call_fn(fn, [cfg])
+        except Unsupported as u:
+            ctx.note("run_taint_analysis is outside the evaluator's subset (%s): shape obligations apply" % u)
+            return False
+        except Panic as p_:
+            bad.setdefault("no-panic", "%s: %s" % (tag, p_))
+            continue
+        n += 1
+        tm = None
+        if isinstance(res, tuple) and res and res[0] == "S" and res[1] == "TaintAnalysis":
+            flds = w.structs.get("TaintAnalysis") or []
+            if "taint_map" in flds:
+                tm = res[2][flds.index("taint_map")]
+        if not isinstance(tm, MMap):
+            ctx.note("run_taint_analysis: the result is not a TaintAnalysis with a taint_map (%r): shape obligations apply" % (res,))
+            return False
+        got = set()
+        inv = {id(v_): k_ for k_, v_ in names.items()}
+        okv = True
+        for k_, v_ in tm.pairs:
+            if not isinstance(v_, MSet) or id(k_) not in inv:
+                okv = False
+                continue
+            for x in v_.items:
+                if id(x) not in inv:
+                    okv = False
+                else:
+                    got.add((inv[id(k_)], inv[id(x)]))
+        if not okv:
+            bad.setdefault("steps", "%s: the taint map holds something other than variable names" % tag)
+        elif got != want:
+            miss, extra = sorted(want - got), sorted(got - want)
+            bad.setdefault("missing" if miss else "extra", "%s: %s" % (tag, ("no taint step %s" % ["%s -> %s" % m_ for m_ in miss[:4]]) if miss else ("unexpected taint step %s" % ["%s -> %s" % m_ for m_ in extra[:4]])))
+        if any(not ok_ for _w, ok_ in asked):
+            bad.setdefault("region", "%s: the branch regions of a block other than the one holding the if-statement are asked for" % tag)
+    ctx.floor(R, "graph worlds evaluated (taint analysis)", n, 12)
+    ctx.check(R, "run_taint_analysis/table/no-panic", "no-panic" not in bad, bad.get("no-panic", "no world makes the pass panic"), site(TA, fn))
+    ctx.check(R, "run_taint_analysis/table/every-step-recorded", not ({"missing", "steps"} & set(bad)), bad.get("missing") or bad.get("steps") or "reads -> writes, dimension reads -> declared names, reads of a condition without a known value -> everything written in both branch regions; for every statement of every block", site(TA, fn))
+    ctx.check(R, "run_taint_analysis/table/nothing-else-recorded", "extra" not in bad and "region" not in bad, bad.get("extra") or bad.get("region") or "no step for asserts, logs, returns, constraints or a condition with a known value", site(TA, fn))
+    return True
+
+
 def rule_taint(ctx):
     R = "C09.1"
     ctx.rule(R, "every statement kind has its taint rule: an assignment taints what it writes with everything it reads; dimensions taint the declared names; a condition without a known constant value taints everything written in the true and in the false branch region; nothing else is skipped")
     fn0 = find_fn(TA, "run_taint_analysis")
     if fn0 is None:
         return ctx.missing(R, "run_taint_analysis")
+    decided = eval_taint(ctx, R, fn0)
+    if decided:
+        return rule_taint_closure(ctx, R)
     fn, miss = alpha.canon_with_arms(fn0, TA_FN_ROLES, "stmt", TA_ARM_ROLES)
     if miss:
         return ctx.missing(R, "run_taint_analysis/roles", "cannot identify %s" % miss)
@@ -127,6 +282,86 @@ def rule_taint(ctx):
             ctx.check(R, "IfThenElse/condition-taints-everything-written-in-both-regions", ok, "step under %s" % c2, site(TA, steps[0]))
         else:
             ctx.bad(R, "IfThenElse/condition-taints-everything-written-in-both-regions", "expected one add_taint_step, found %d" % len(steps), site(TA, a))
+    rule_taint_closure(ctx, R)
+
+
+def eval_taint_closure(ctx, R):
+    """The taint relation by evaluation: add_taint_step builds the map, multi_step_taint is the reflexive-transitive
+    closure and taints_any its intersection test - on a chain, a cycle, a diamond and an isolated node."""
+    import passeval
+    from finfun import Unsupported
+    from passeval import MSet, O, Panic
+
+    try:
+        w = passeval.PassWorld([TA], TA)
+    except Exception:  # noqa: BLE001
+        return False
+    w.max_rounds = 5000
+    need = ["add_taint_step", "multi_step_taint", "taints_any"]
+    if any(("TaintAnalysis", m_) not in w.methods for m_ in need) or "TaintAnalysis" not in w.struct_fields:
+        return False
+    ats, mst, tany = [w.methods[("TaintAnalysis", m_)][0] for m_ in need]
+    nodes = {x: ("O", "name:" + x, (("clone", ("PY", (lambda x=x: nodes[x]))),)) for x in "abcdefg"}
+    graphs = {
+        "chain": [("a", "b"), ("b", "c"), ("c", "d")],
+        "cycle": [("a", "b"), ("b", "c"), ("c", "a"), ("c", "d")],
+        "diamond": [("a", "b"), ("a", "c"), ("b", "d"), ("c", "d"), ("d", "e")],
+        "self-loop": [("a", "a"), ("a", "b")],
+        "nothing": [],
+    }
+    # a long chain: the closure may not stop after a fixed number of rounds
+    LONG = 600
+    for i in range(LONG + 1):
+        nodes["n%d" % i] = ("O", "name:n%d" % i, (("clone", ("PY", (lambda i=i: nodes["n%d" % i]))),))
+    graphs["chain of %d steps" % LONG] = [("n%d" % i, "n%d" % (i + 1)) for i in range(LONG)]
+    bad = {}
+    n = 0
+    for tag, edges in graphs.items():
+        try:
+            self_ = w.default_of("TaintAnalysis")
+            for s_, t_ in edges:
+                w.call_fn(ats, [self_, nodes[s_], nodes[t_]])
+            if tag.startswith("chain of"):
+                got = w.call_fn(mst, [self_, nodes["n0"]])
+                n += 1
+                if not isinstance(got, MSet) or len(got.items) != LONG + 1:
+                    bad.setdefault("closure", "%s: multi_step_taint(first) has %s members, the closure has %d" % (tag, len(got.items) if isinstance(got, MSet) else "?", LONG + 1))
+                continue
+            for src in "abcdef":
+                reach, todo = {src}, [src]
+                while todo:
+                    x = todo.pop()
+                    for s_, t_ in edges:
+                        if s_ == x and t_ not in reach:
+                            reach.add(t_)
+                            todo.append(t_)
+                got = w.call_fn(mst, [self_, nodes[src]])
+                n += 1
+                if not isinstance(got, MSet):
+                    raise Unsupported("multi_step_taint returns %r" % (got,))
+                gotn = {k_ for k_, v_ in nodes.items() if any(y is v_ for y in got.items)}
+                if gotn != reach or len(got.items) != len(gotn):
+                    bad.setdefault("closure", "%s %s: multi_step_taint(%s) = %s, the reflexive-transitive closure is %s" % (tag, edges, src, sorted(gotn), sorted(reach)))
+                for sinks in (["g"], ["e", "g"], ["d"], [src], []):
+                    want = bool(reach & set(sinks))
+                    g2 = w.call_fn(tany, [self_, nodes[src], MSet([nodes[x] for x in sinks])])
+                    n += 1
+                    if g2 is not want:
+                        bad.setdefault("any", "%s %s: taints_any(%s, %s) = %s" % (tag, edges, src, sinks, g2))
+        except Unsupported as u:
+            ctx.note("the taint relation is outside the evaluator's subset (%s): shape obligations apply" % u)
+            return False
+        except Panic as p_:
+            bad.setdefault("closure", "%s: panics (%s)" % (tag, p_))
+    ctx.floor(R, "closure queries evaluated", n, 100)
+    ctx.check(R, "TaintAnalysis::multi_step_taint/reflexive-transitive-closure", "closure" not in bad, bad.get("closure", "equals the reflexive-transitive closure of the recorded steps on 5 graphs, every source"), site(TA, mst))
+    ctx.check(R, "TaintAnalysis::taints_any", "any" not in bad, bad.get("any", "true exactly when the closure meets the sinks"), site(TA, tany))
+    return True
+
+
+def rule_taint_closure(ctx, R):
+    if eval_taint_closure(ctx, R):
+        return rule_region_callers(ctx, R)
     # closure
     mt = find_fn(TA, "multi_step_taint")
     if mt is not None:
@@ -162,6 +397,10 @@ def rule_taint(ctx):
         t = render(ats["body"]).replace(" ", "")
         pv = sgrep.params(ats)
         ctx.check(R, "TaintAnalysis::add_taint_step", len(pv) == 2 and sgrep.has(ats["body"], "self.taint_map.entry(__a).or_default().insert(__b)", sgrep.lets(ats["body"]), {"__a": pv[0], "__b": pv[1]}), t, site(TA, ats))
+    rule_region_callers(ctx, R)
+
+
+def rule_region_callers(ctx, R):
     # who may call the branch-region queries
     callers = set()
     for f in facts.ast():
